@@ -122,27 +122,40 @@ def check(case):
         mk = lambda: cls(width=case["w"], depth=case["d"], hash_function=fn)
         a, b, both = mk(), cls(width=case["w"], depth=case["d"], hash_function=fn_b), mk()
         true = {}
-        for k, n in a_ops:
-            a.add(k, n), both.add(k, n)
-            true[k] = true.get(k, 0) + n
-        for k, n in b_ops:
-            b.add(k, n), both.add(k, n)
-            true[k] = true.get(k, 0) + n
+        removing = len(a_ops) % 2 == 1  # the streams also remove (from other keys too: cells and totals go negative)
+        for i, (k, n) in enumerate(a_ops):
+            if removing and i % 3 == 2:
+                a.remove(k, n), both.remove(k, n)
+                true[k] = true.get(k, 0) - n
+            else:
+                a.add(k, n), both.add(k, n)
+                true[k] = true.get(k, 0) + n
+        for i, (k, n) in enumerate(b_ops):
+            if removing and i % 3 == 1:
+                b.remove(k, n), both.remove(k, n)
+                true[k] = true.get(k, 0) - n
+            else:
+                b.add(k, n), both.add(k, n)
+                true[k] = true.get(k, 0) + n
         a.join(b)
         if core.cms_bins(a) != core.cms_bins(both):
             return "bins after join differ from the sketch fed both streams"
         if case["flip"]:
             # a sketch joined into itself is the sketch fed its stream twice (below the limits)
             twice = mk()
-            for k, n in b_ops + b_ops:
-                twice.add(k, n)
+            for _ in range(2):
+                for i, (k, n) in enumerate(b_ops):
+                    if removing and i % 3 == 1:
+                        twice.remove(k, n)
+                    else:
+                        twice.add(k, n)
             b.join(b)
             if core.cms_bins(b) != core.cms_bins(twice) or b.elements_added != twice.elements_added:
                 return "a sketch joined into itself differs from the sketch fed its stream twice"
         if a.elements_added != both.elements_added:
             return f"total after join {a.elements_added} != {both.elements_added}"
         for k, v in true.items():
-            if a.check(k) < v:
+            if not removing and a.check(k) < v:
                 return f"estimate of {k!r} after join {a.check(k)} below the sum of true counts {v}"
     return None
 
